@@ -498,7 +498,7 @@ class ExprMixin:
             nlen = z3.If(b > a, b - a, 0)
             arr = self.ctx.fresh_term(z3.ArraySort(z3.IntSort(), ty.elem.sort()), "slice")
             j = z3.Int("j!sl")
-            self.ctx.assume(z3.ForAll([j], z3.Select(arr, j) == z3.Select(ty.arr(base.t), j + a), patterns=[z3.Select(arr, j)]))
+            self.ctx.assume(sorts.forall([j], z3.Select(arr, j) == z3.Select(ty.arr(base.t), j + a), patterns=[z3.Select(arr, j)]))
             R = ty.mk(z3.simplify(nlen), arr)
             self.ctx.assume(z3.IsSubset(ty.elems_fn()(R), ty.elems_fn()(base.t)))
             return SV(ty, R)
@@ -696,7 +696,7 @@ class ExprMixin:
         arr = self.ctx.fresh_term(z3.ArraySort(z3.IntSort(), ty.elem.sort()), "cat")
         j = z3.Int("j!cat")
         self.ctx.assume(
-            z3.ForAll([j], z3.Select(arr, j) == z3.If(j < la, z3.Select(ty.arr(a.t), j), z3.Select(ty.arr(b.t), j - la)), patterns=[z3.Select(arr, j)])
+            sorts.forall([j], z3.Select(arr, j) == z3.If(j < la, z3.Select(ty.arr(a.t), j), z3.Select(ty.arr(b.t), j - la)), patterns=[z3.Select(arr, j)])
         )
         R = ty.mk(z3.simplify(la + lb), arr)
         el = ty.elems_fn()
@@ -803,12 +803,12 @@ class ExprMixin:
             inner = self.eq_same(ty.elem, z3.Select(ty.arr(x), j), z3.Select(ty.arr(y), j))
             return z3.And(
                 ty.len(x) == ty.len(y),
-                z3.ForAll([j], z3.Implies(z3.And(0 <= j, j < ty.len(x)), inner)),
+                sorts.forall([j], z3.Implies(z3.And(0 <= j, j < ty.len(x)), inner)),
             )
         if isinstance(ty, TDict):
             k = z3.Const("k!eq", ty.key.sort())
             inner = self.eq_same(ty.val, z3.Select(ty.val_(x), k), z3.Select(ty.val_(y), k))
-            return z3.And(ty.dom(x) == ty.dom(y), z3.ForAll([k], z3.Implies(z3.Select(ty.dom(x), k), inner)))
+            return z3.And(ty.dom(x) == ty.dom(y), sorts.forall([k], z3.Implies(z3.Select(ty.dom(x), k), inner)))
         if isinstance(ty, TSet):
             if x is None:
                 x = ty.empty()
